@@ -163,7 +163,8 @@ def h_own_crs(res, spelling, mode, pin, req=None, anchor="default", tight=False,
     import odc.geo.overlap as ov
 
     rx, ry = F(res[0]), F(res[1])
-    if req is not None and not ((rx / F(req[0])).denominator == 1 and (ry / F(req[1])).denominator == 1):
+    rq = req if req is not None else ([str((abs(rx) + abs(ry)) / 2)] * 2 if mode == "fit" else None)
+    if rq is not None and not ((rx / F(rq[0])).denominator == 1 and (ry / F(rq[1])).denominator == 1):
         size = size or 7
     else:
         size = None
@@ -185,11 +186,29 @@ def h_own_crs(res, spelling, mode, pin, req=None, anchor="default", tight=False,
     elif mode == "same":
         kw["resolution"] = "same"
         want_res = (rx, ry)
+    elif mode == "fit":
+        # the scale between a grid and itself is 1 (the least-squares fit is recorded): square pixels
+        # of the mean source pixel size, inverted Y, on the default grid -- never the source as it is
+        kw["resolution"] = "fit"
+        avg = (abs(rx) + abs(ry)) / 2
+        want_res = (avg, -avg)
     else:
         want_res = (rx, ry)
     if mode != "default_tol":
         kw["tol"] = tol
-    out, log = _run(lambda: ov.compute_output_geobox(g, crs, **kw))
+    fit_calls = []
+    saved_fit = (ov.get_scale_at_point, ov.native_pix_transform)
+    if mode == "fit":
+        from odc.geo.types import xy_
+
+        ov.native_pix_transform = lambda a_, b_: fit_calls.append(("npt", a_, b_)) or "tr"
+        ov.get_scale_at_point = lambda pt, tr, r=None: fit_calls.append(("scale", pt, tr)) or xy_(rconst(1), rconst(1))
+    try:
+        out, log = _run(lambda: ov.compute_output_geobox(g, crs, **kw))
+    finally:
+        ov.get_scale_at_point, ov.native_pix_transform = saved_fit
+    if mode == "fit":
+        prove("scale_fitted_once", len([c for c in fit_calls if c[0] == "scale"]) == 1)
     shortcut = anchor == "default" and mode in ("default", "same", "default_tol")
     if shortcut:
         prove("own_crs_with_default_options_returns_the_source_unchanged", out is g)
@@ -596,6 +615,8 @@ def _own_params(tier, rng):
     for sp in ("str", "obj", "int", "wkt"):
         out.append(dict(res=["10", "-10"], spelling=sp, mode="default", pin="none"))
     out.append(dict(res=["-1/4", "1/3"], spelling="obj", mode="same", pin="none"))
+    out.append(dict(res=["10", "-10"], spelling="str", mode="fit", pin="x"))
+    out.append(dict(res=["5", "-15"], spelling="int", mode="fit", pin="y", anchor="center"))
     out.append(dict(res=["10", "-10"], spelling="str", mode="default_tol", pin="none"))
     ress = RES_Q if tier == "quick" else RES_T
     reqs = [["10", "-10"], ["25", "-25"], ["-3", "7/2", "xy"]] if tier == "quick" else [["10", "-10"], ["25", "-25"], ["-3", "7/2", "xy"], ["1/3", "-1/3"], ["1000", "-250", "xy"]]
